@@ -528,7 +528,8 @@ fn main() {
     let n_sets = if thorough { 4000 } else { 330 };
     let mut encoded: Vec<(Vec<u8>, Ranges)> = vec![];
     for _ in 0..n_sets {
-        let (rs, tag) = gen_set(&mut rng, if rng.chance(1, 6) { 1024 } else { 280 });
+        let lim = if rng.chance(1, 6) { 1024 } else { 280 };
+        let (rs, tag) = gen_set(&mut rng, lim);
         for bf in [2u8, 4, 8, 32, 0] {
             if let Some(b) = cx.enc_case(bf, &rs, &mut rng, tag) {
                 if b.len() <= 300 {
